@@ -23,6 +23,10 @@ C15_PGNS = [59392, 59904, 60928, 126464, 126993, 126996, 126992, 127245, 127250,
             128267, 128275, 129025, 129026, 129029, 129033, 129283, 129284, 129539, 130306, 130310, 130311, 130312, 130313, 130314, 130316]
 
 
+# the setter whose argument numbers the reference layout of a PGN uses (default SetN2kPGN<n>)
+C15_SETTER = {127489: 'SetN2kPGN127489_o2'}
+
+
 class Untr(Exception):
     pass
 
@@ -2415,7 +2419,7 @@ def gen_obligations_v(fns, meta, pairs, allmeta, world):
     md = {d['id']: d for d in meta}
     known = known_keys_c05()
     L = ['(* GENERATED by tools/cxx2coq.py - per-function obligations of C05 (closed by vm_compute) - do not edit *)',
-         'From Coq Require Import ZArith List Bool.', 'From N2kV Require Import Model.MsgIR Model.MsgExec Spec.MsgSpec Gen.GenMessages.',
+         'From Coq Require Import ZArith List Bool.', 'From N2kV Require Import Model.MsgIR Model.MsgExec Spec.MsgSpec Spec.RefLayouts Gen.GenMessages.',
          'Import ListNotations.', 'Local Open Scope Z_scope.', '']
     status = {'rt': [], 'guard': [], 'rt_names': [], 'guard_names': []}
     gam_done = set()
@@ -2490,6 +2494,26 @@ def gen_obligations_v(fns, meta, pairs, allmeta, world):
     L.append('Definition guarded_parsers : list (parser * Z) := [\n  %s].' % ';\n  '.join(gl))
     L.append('Example rt_pairs_checked : forallb (fun q => match q with (s, p, g, m) => rt_check s p g m end) rt_pairs = true.  Proof. vm_compute. reflexivity. Qed.')
     L.append('Example guarded_parsers_checked : forallb (fun q => guard_check (fst q) (snd q)) guarded_parsers = true.  Proof. vm_compute. reflexivity. Qed.')
+    # ---- C15: one layout obligation per listed PGN against Spec/RefLayouts.v
+    L.append('')
+    L.append('(* C15: the setter of every listed PGN against the reference layout of Spec/RefLayouts.v *)')
+    lay = []
+    lst = []
+    names = {f.cname: f for f in fns}
+    for pgn in C15_PGNS:
+        sn = C15_SETTER.get(pgn, 'SetN2kPGN%d' % pgn)
+        f = names.get(sn)
+        if f is None or f.err is not None:
+            L.append('(* layout_%d : setter %s is not translated *)' % (pgn, sn))
+            L.append('Example layout_%d : false = true.  Proof. vm_compute. reflexivity. Qed.' % pgn)
+            lay.append({'pgn': pgn, 'setter': sn, 'status': 'untranslated'})
+            continue
+        L.append('Example layout_%d : layout_matches s_%s ref_%d = true.  Proof. vm_compute. reflexivity. Qed.' % (pgn, sn, pgn))
+        lay.append({'pgn': pgn, 'setter': sn, 'status': 'proved'})
+        lst.append('(s_%s, ref_%d)' % (sn, pgn))
+    L.append('Definition layout_pairs : list (setter * list reffield) := [\n  %s].' % ';\n  '.join(lst))
+    L.append('Example layout_pairs_checked : forallb (fun q => layout_matches (fst q) (snd q)) layout_pairs = true.  Proof. vm_compute. reflexivity. Qed.')
+    status['layout'] = lay
     allmeta['obligations'] = status
     return '\n'.join(L) + '\n'
 
